@@ -9,7 +9,7 @@
     [step_abs] = the abstract per-argument fold; [enc k] = what a Count flag holds after k occurrences. *)
 From ClapModel Require Import Base.Bytes Base.Machine.
 From ClapModel Require Import Parse.Cmd Parse.Build Parse.Valid Parse.Matcher Parse.Errors Parse.Parser ParseProofs.Actions ParseProofs.ActionsLoop ParseProofs.ActionsTokens ParseProofs.ActionsTop ParseProofs.ActionsWide ParseProofs.ActionsWideTop ParseProofs.ActionsGraph ParseProofs.ActionsRequired ParseProofs.ActionsChain.
-From ClapModel Require ParseProofs.Chain ParseProofs.Globals.
+From ClapModel Require ParseProofs.Chain ParseProofs.Globals ParseProofs.UnparseTree.
 From Coq Require Import ZArith.
 Open Scope N_scope.
 
@@ -734,3 +734,14 @@ Theorem C07_append_graph_fold : forall c a os, assert_app c = true -> In a (c_ar
   if (0 <? count_occ (a_id a) (live c (a_id a) os))%nat then Some (occ_groups c (a_id a) (live c (a_id a) os)) else None.
 Proof. exact abs_append_graph. Qed.
 Print Assumptions C07_append_graph_fold.
+
+(** ... and at [parse_top], for trees without global arguments (C02's [no_globals]: the globals merge is the identity) *)
+Theorem C07_chain_levels_top : forall c0 bin toks lv m,
+  let c := build_self (with_bin c0 bin) in
+  is_set s_no_binary_name c0 = false -> is_set s_ignore_errors c = false ->
+  UnparseTree.no_globals (build_recursive (S (S (depth c))) (with_bin c0 bin)) = true ->
+  cline c toks lv -> parse_top c0 (bin :: toks) = OOk m ->
+  Forall2 (fun p args => level_form (fst p) (snd p) args) lv (Globals.levels m) /\
+  Globals.chain m = map (fun p => c_name (fst p)) (tl lv).
+Proof. exact chain_levels_top. Qed.
+Print Assumptions C07_chain_levels_top.
